@@ -126,7 +126,10 @@ def dump_atom(k, d):
 
 
 def dump_mol(g, with_bonding=True):
-    nodes = [dump_atom(k, d) for k, d in g.nodes(data=True)]
+    # sorted by key: the iteration order of the node dict is not part of any property (what depends on it —
+    # first-match bonding, RDKit atom indices — shows in bonds / coordinates), so a rewrite that only changes
+    # it must not break the correspondence
+    nodes = sorted((dump_atom(k, d) for k, d in g.nodes(data=True)), key=lambda a: (str(type(a['k'])), a['k']))
     edges = []
     for a, b, d in g.edges(data=True):
         bd = d.get('bonding')
@@ -140,6 +143,7 @@ def model_mol_canon(m):
     """the driver's dump of a Mol, brought to the same canonical form as dump_mol"""
     for a in m['n']:
         a['x'] = sorted(a['x'])
+    m['n'].sort(key=lambda a: (str(type(a['k'])), a['k']))
     m['e'].sort(key=lambda e: (e[0], e[1]))
     return m
 
